@@ -86,12 +86,13 @@ def zMeasure (t : Tab) (q : Nat) (o : Bool) : Tab × Bool × Nat :=
 def zMeasure? (t : Tab) (q : Nat) (o : Bool) : Except Err (Tab × Bool × Nat) :=
   if q < t.n then .ok (t.zMeasure q o) else .error .assertion
 
-/-- `reset_z(tableau, q, intended, determinism)` -/
+/-- `reset_z(tableau, q, intended, determinism)`: measure; if the measurement was random clear the iphase of the new
+    `Z_q` row; then flip the qubit iff the outcome differs from the intended state (in both branches — since the
+    repair D50; before it the random branch overwrote the sign of the new row with `intended` instead). -/
 def resetZ (t : Tab) (q : Nat) (intended : Bool) (o : Bool) : Tab :=
   let (t1, outcome, p) := t.zMeasure q o
-  if p ≠ 0 then
-    { t1 with row := upd t1.row p { (t1.row p) with r := intended, ip := false } }
-  else if outcome = intended then t1 else t1.xGate q
+  let t2 : Tab := if p ≠ 0 then { t1 with row := upd t1.row p { (t1.row p) with ip := false } } else t1
+  if outcome = intended then t2 else t2.xGate q
 
 def resetX (t : Tab) (q : Nat) (intended o : Bool) : Tab := (t.resetZ q intended o).hGate q
 def resetY (t : Tab) (q : Nat) (intended o : Bool) : Tab := ((t.resetZ q intended o).hGate q).sGate q
